@@ -1,6 +1,7 @@
 package rules
 
 import (
+	"go/token"
 	"go/types"
 	"sort"
 	"strings"
@@ -924,6 +925,54 @@ func c05issued(c *Ctx, roots []*ssa.Function) {
 									good = true
 								}
 							}
+						}
+					}
+				}
+				// the items may come from a helper of the session package that asks ExpungeIssued itself
+				if !good {
+					for _, cs2 := range engine.Calls(root) {
+						h := cs2.Common().StaticCallee()
+						hc, isCall := cs2.Instr.(*ssa.Call)
+						if h == nil || !isCall || len(h.Blocks) == 0 || h.Parent() != nil || engine.RelPkg(P.OwnPkgPath(h)) != "internal/session" {
+							continue
+						}
+						if !okChainGets(call, hc) { // the chain evaluates Ok(tag) first and the items afterwards
+							continue
+						}
+						// in h: the true outcome of ExpungeIssued() returns ItemExpungeIssued
+						for _, ecs := range engine.Calls(h) {
+							ec, ok := ecs.Instr.(*ssa.Call)
+							if !ok || ecs.Common().StaticCallee() != ei || ec.Referrers() == nil {
+								continue
+							}
+							var walkRef func(v ssa.Value, neg bool)
+							walkRef = func(v ssa.Value, neg bool) {
+								for _, r := range *v.Referrers() {
+									switch u := r.(type) {
+									case *ssa.UnOp:
+										if u.Op == token.NOT && u.Referrers() != nil {
+											walkRef(u, !neg)
+										}
+									case *ssa.If:
+										trueIx := 0
+										if neg {
+											trueIx = 1
+										}
+										for _, ret := range engine.Returns(h) {
+											if !engine.EdgeDominates(u.Block(), trueIx, ret.Block()) && !(u.Block().Succs[trueIx] == ret.Block() && len(ret.Block().Preds) == 1) {
+												continue
+											}
+											if len(ret.Results) > 0 && engine.AnyBackward(ret.Results[0], engine.FlowOpts{AppendElems: true, AppendBase: true, Loads: true}, func(x ssa.Value) bool {
+												ic, ok := x.(*ssa.Call)
+												return ok && ic.Call.StaticCallee() != nil && engine.ShortName(ic.Call.StaticCallee()) == "ItemExpungeIssued"
+											}) {
+												good = true
+											}
+										}
+									}
+								}
+							}
+							walkRef(ec, false)
 						}
 					}
 				}
